@@ -11,7 +11,7 @@ import (
 )
 
 func signingFees(run *sim.Run) {
-	n := run.N(24, 1200)
+	n := run.N(64, 1200)
 	tssworld.RunCases(run, "c13s", n, func(r *sim.Rng, i int) tssworld.Cfg {
 		nm := r.Range(2, 6)
 		fee := sdk.NewCoins(sdk.NewInt64Coin("uband", int64(sim.Pick(r, []int{1, 7, 10, 1000}))))
